@@ -10,6 +10,10 @@ and compares observations, receiver-unmodified, result-independent-of-receiver a
 structure, for four name classes (plain; blanks/underscore/quotes inside; newick punctuation; leading/trailing blanks).
 spec -> code (TreeDist.tla): the four tree-to-tree distances on all ordered pairs of all
 topologies on a small tip set, against definitions by set difference / brute-force matching.
+spec -> code (TreeDistHist.tla): the same distances (and subsets(), compare_by_subsets) over
+histories: measure, then copy / deepcopy / prune / bifurcating / multifurcating / reassign_names
+on the same or a copied object, then measure again on those objects; the expected value is
+always the definition on the current topology.
 code -> spec (TreeOpsTrace.tla): seeded random compositions on larger random trees with
 dyadic branch lengths are recorded (receiver before / result / receiver after) and judged
 by the same Trees.tla definitions.
@@ -108,6 +112,32 @@ def tree_dist(run: Run, scratch, cfg, tag, *, simulate=None):
     return st
 
 
+def tree_dist_hist(run: Run, scratch, cfg, tag):
+    """Distances over histories (TreeDistHist.tla): measure, transform the same / a copied object, measure."""
+    emit = scratch / f"treedisthist-{tag}.ndjson"
+    text = (SPECS / cfg).read_text()
+    tips = re.findall(r'"(\w+)"', re.search(r"Tips\s*=\s*\{([^}]*)\}", text).group(1))
+    res = run_tlc("TreeDistHist", cfg, scratch, workers=16, env={"EMIT_FILE": emit}, timeout=1500, heap="6g")
+    run.add_tlc(res)
+    recs = list(read_emitted(emit))
+    os.unlink(emit)
+    t1 = time.time()
+    st = D.replay_histories(recs, tips, run)
+    st["replay_wall_s"] = round(time.time() - t1, 1)
+    st["tlc"] = {"distinct": res.distinct, "generated": res.generated, "wall_s": round(res.wall, 1)}
+    st["tips"] = len(tips)
+    run.note(f"treedisthist_{tag}", st)
+    run.cov["traces_validated_against_impl"] += st["cases"]
+    run.cov["evaluations"] += st["calls"]
+    run.cov["distinct_nontrivial"] += st["transitions"]
+    need = {"Start", "Measure", "Copy", "DeepCopy", "Prune", "Bifurcating", "Multifurcating3", "CopyRename", "RenameInPlace"}
+    if st["impl_states_reached"] < st["spec_states"] and not st.get("issues"):
+        raise RuntimeError(f"TreeDistHist/{tag}: {st['spec_states'] - st['impl_states_reached']} model states were never reached on real objects")
+    if need - set(st["per_action"]):
+        raise RuntimeError(f"TreeDistHist/{tag}: actions never executed (vacuous): {sorted(need - set(st['per_action']))}")
+    return st
+
+
 def check(run: Run):
     quick = run.tier == "quick"
     with Scratch("C09") as scratch:
@@ -126,6 +156,11 @@ def check(run: Run):
         else:
             tree_dist(run, scratch, "MC_TreeDist_thorough.cfg", "all5")
             tree_dist(run, scratch, "MC_TreeDist_sample6.cfg", "sample6", simulate="num=1500")
+        if quick:
+            tree_dist_hist(run, scratch, "MC_TreeDist_hist_quick.cfg", "sample4")
+        else:
+            tree_dist_hist(run, scratch, "MC_TreeDist_hist_all4.cfg", "all4")
+            tree_dist_hist(run, scratch, "MC_TreeDist_hist_thorough.cfg", "sample5")
         # code -> spec: recorded executions on larger random trees judged by TreeOpsTrace.tla
         T.validate(run, scratch)
     run.cov["rule"] = (
@@ -133,6 +168,9 @@ def check(run: Run):
         "within the tier's tip bound (plus, thorough, a seeded sample of 6-tip shapes with two-call histories), each reached "
         "on real objects by replaying its history, x 4 name classes (the leading/trailing-blank class on the newick/json round-trip calls only); TreeDist: every ordered pair of all topologies on the "
         "tier's tip set (plus a seeded sample one tip larger), x 2 child orders x all method aliases x both argument orders. "
+        "TreeDistHist: every transition of the closed graph (tree A, tree B, measured?) x {measure, copy, deepcopy, prune, "
+        "bifurcating, multifurcating(3), rename on a copy / in place} for all A and the tier's sample of B, each followed by a "
+        "measurement on the same objects, x 2 child orders. "
         "TreeOpsTrace: every call of seeded random compositions on random trees (6-12 tips, lengths k/8) judged by TLC. "
         "distinct_nontrivial = distinct (abstract tree, call) pairs + distinct same-kind tree pairs + recorded calls executed on real code"
     )
